@@ -227,6 +227,9 @@ def gen_focus_text(rng):
     """Very small vocabulary: every rule matches the UBER transactions, so that priority / order / category decide
     the outcome and any memo keyed on part of a rule goes stale on the next load."""
     out = []
+    if rng.random() < 0.4:
+        out.append(rng.choice(['field.description = regex_replace(field.description, "EATS", "RIDE")\n',
+                               'field.description = strip_prefix(field.description, "UBER ")\n']))
     for nm in rng.sample(['Uber', 'Uber Eats', 'Any', 'Eats'], rng.randint(2, 3)):
         cat, sub = rng.choice(GEN_CATS[:3])
         lines = ['[%s]' % nm, 'match: ' + rng.choice(FOCUS_MATCH), 'category: ' + cat, 'subcategory: ' + sub]
@@ -246,6 +249,10 @@ def gen_general_text(rng):
     out = []
     if rng.random() < 0.3:
         out.append('is_large = amount > %d\n' % rng.choice([10, 100]))
+    if rng.random() < 0.35:
+        out.append(rng.choice(['field.description = strip_prefix(field.description, "SQ *")\n',
+                               'field.description = regex_replace(field.description, "COFFEE", "TEA")\n',
+                               'field.description = uppercase(field.description)\n']))
     names = rng.sample(GEN_NAMES, rng.randint(2, 4))
     for nm in names:
         cat, sub = rng.choice(GEN_CATS)
@@ -557,8 +564,13 @@ def do_op(st, op, ch, root):
             ch.reads = {path: op['fault']}
         try:
             try:
-                rules = mu.get_all_rules(full, match_mode=op['mode'])
-                transforms = mu.get_transforms(full, match_mode=op['mode'])
+                if op.get('order') == 'transforms-first':
+                    # the order tally up / explain / discover use
+                    transforms = mu.get_transforms(full, match_mode=op['mode'])
+                    rules = mu.get_all_rules(full, match_mode=op['mode'])
+                else:
+                    rules = mu.get_all_rules(full, match_mode=op['mode'])
+                    transforms = mu.get_transforms(full, match_mode=op['mode'])
             finally:
                 ch.reads = {}
         except Exception as e:   # a failed load is an outcome
@@ -819,6 +831,9 @@ def execute(ops, scratch, seed=None, i=None):
 def run_one(seed, i, tier, scratch):
     rng = util.rng_for(seed, ID, i)
     ops = gen_history(rng, tier)
+    for op in ops:
+        if op['op'] == 'LOAD':
+            op['order'] = rng.choice(['transforms-first', 'transforms-first', 'rules-first'])
     res = execute(ops, scratch, seed, i)
     if i < 2:
         res['samples'] = [{'seed': seed, 'run': i, 'history': [op_label(o) if o['op'] not in ('EDIT', 'FILES') else '%s %s' % (o['op'], o.get('path', '')) for o in ops]}]
